@@ -95,7 +95,7 @@ impl Property for C04 {
                         ""
                     } else if st.used_env && case.program.traits.iter().any(|t| t.extra > 0) {
                         ":env-with-trait-params"
-                    } else if st.co_cycle {
+                    } else if st.co_cycle || (program_has_co_cycle(&case.program) && !goal_is_closed(g)) {
                         ":coinductive-cycle"
                     } else {
                         ""
